@@ -887,19 +887,17 @@ def _ilv_one(libs, A, ic, enc, seed):
             return None
         for k in stored:
             if k != j and not compare(exps[k], g, enc, conf_source=confs[k]):
-                return f"{stage}:key-reads-back-as-the-object-stored-under-another-key"
-        return f"{stage}:object-differs"
+                return "record-corrupted"  # (reads back as the object stored under another key)
+        return "record-corrupted"
 
     def check_keys(stage, h):
         want = sorted(f"key{j}" for j in stored)
         ks = sorted(h.keys())
-        if ks != want:
-            return f"{stage}:key-set-differs"
-        if len(h) != len(want):
-            return f"{stage}:len-differs"
+        if ks != want or len(h) != len(want):
+            return "key-listing-differs"
         for k in allkeys:
             if (k in h) != (k in want):
-                return f"{stage}:contains-differs"
+                return "key-listing-differs"
         return None
 
     def read_all(stage, h):
@@ -913,12 +911,14 @@ def _ilv_one(libs, A, ic, enc, seed):
         return None
 
     stage = "in-session"
+    doing = ["open"]
     try:
         h = libs.open(lib, path, readonly=False, **ILV_BUFS[ic.get("buf", "default")])
         check_version(h, enc)
         with h.writing(timeout=10):
             for o in ops:
                 ntr += 1
+                doing[0] = "put" if o == "P" else ("probe" if o == "Q" else "get")
                 if o == "P":
                     j = len(stored)
                     h[f"key{j}"] = objs[j]
@@ -932,6 +932,7 @@ def _ilv_one(libs, A, ic, enc, seed):
                     if sym:
                         return [sym], tuple(outs), ntr
             stage = "same-session-readback"
+            doing[0] = "get"
             sym = read_all(stage, h)
             ntr += len(stored)
             if sym:
@@ -953,7 +954,10 @@ def _ilv_one(libs, A, ic, enc, seed):
     except HarnessError:
         raise
     except Exception as e:
-        return [f"{stage}:{exc_sig(e)}"], tuple(outs) + (type(e).__name__,), ntr
+        # what a damaged record decodes to (another object, garbage, an exception of whatever type)
+        # depends on the sizes of the records involved: the symptom class must not
+        sym = {"put": "put-raised", "probe": "key-listing-differs"}.get(doing[0], "record-corrupted")
+        return [sym], tuple(outs) + ("exc",), ntr
     finally:
         libs.done()
 
